@@ -215,9 +215,97 @@ def g_mixture(n=3):
     return run
 
 
+_real = {}
+
+
+def real_chemical(E):
+    """a real Chemical object (blank) whose Cn / Hvap models are the stubs; all constants go through
+    the public setters, so the functors are (re)built by the library itself"""
+    from thermosteam.base.phase_handle import PhaseTHandle
+    from thermo.eos import IG
+    if 'c' not in _real:
+        c = tmo.Chemical.blank('StubChem', phase_ref='l')
+        _real['c'] = c
+    c = _real['c']
+    setf = object.__setattr__
+    setf(c, '_Cn', PhaseTHandle('Cn', CnModel(E, 's'), CnModel(E, 'l'), CnModel(E, 'g')))
+    setf(c, '_Hvap', lambda T: E.uf('Hvap', T))
+    setf(c, '_eos', IG(T=298.15, P=101325.))
+    setf(c, '_locked_state', None)
+    for k in ('_Tm', '_Tb', '_Hfus', '_Sfus', '_S0', '_H', '_S', '_H_excess', '_S_excess'):
+        setf(c, k, None)        # nothing from an earlier path
+    return c
+
+
+def g_setter_history():
+    """constants assigned through the public setters, then ONE of them re-assigned: the identities
+    must hold for the values the chemical now reports"""
+    def run(E):
+        ref = E.pick('slg', 'reference-phase')
+        c = real_chemical(E)
+        if not E.concrete:
+            E.assume(E.eq(E.uf('ln', 1.0), 0.0), 'ln(1) = 0')
+        vals = {}
+
+        def draw(tag):
+            Tm = E.real(f'Tm{tag}', lo=50, nice=(150, 280))
+            Tb = E.real(f'Tb{tag}', lo=50, nice=(300, 450))
+            Hfus = E.real(f'Hfus{tag}', nice=(1000, 9000))
+            S0 = E.real(f'S0{tag}', nice=(10, 200))
+            E.assume(Tb > Tm)
+            E.assume(Hfus > 0)
+            E.assume(E.uf('Hvap', Tb) > 0)
+            return dict(Tm=Tm, Tb=Tb, Hfus=Hfus, S0=S0)
+        v0 = draw('a')
+        c.phase_ref = ref
+        c.Tm = v0['Tm']
+        c.Tb = v0['Tb']
+        c.Hfus = v0['Hfus']
+        c.Sfus = v0['Hfus'] / v0['Tm']
+        c.S0 = v0['S0']
+        vals.update(v0)
+        change = E.pick(['none', 'Tb', 'Tm', 'Hfus', 'S0', 'phase_ref'], 're-assigned')
+        v1 = draw('b')
+        if change == 'Tb':
+            E.assume(v1['Tb'] > vals['Tm'])
+            c.Tb = vals['Tb'] = v1['Tb']
+        elif change == 'Tm':
+            E.assume(v1['Tm'] < vals['Tb'])
+            c.Tm = vals['Tm'] = v1['Tm']
+            c.Sfus = vals['Hfus'] / vals['Tm']
+        elif change == 'Hfus':
+            c.Hfus = vals['Hfus'] = v1['Hfus']
+            c.Sfus = vals['Hfus'] / vals['Tm']
+        elif change == 'S0':
+            c.S0 = vals['S0'] = v1['S0']
+        elif change == 'phase_ref':
+            ref = E.pick([p for p in 'slg' if p != ref], 'new-reference-phase')
+            c.phase_ref = ref
+        H, S = c.H, c.S
+        Tm, Tb, Hfus, S0 = vals['Tm'], vals['Tb'], vals['Hfus'], vals['S0']
+        hv = E.uf('Hvap', Tb)
+        T = E.real('T', lo=1, nice=(200, 500))
+        T2 = E.real('T2', lo=1, nice=(200, 500))
+        P = E.real('P', lo=1, nice=(1e4, 1e6))
+        Tr, Pr = c.T_ref, c.P_ref
+        sig = f'ref={ref}/re-assigned={change}'
+        E.observe('H_l', H('l', T, P))
+        E.prove('H-is-zero-at-reference-state', E.eq(H(ref, Tr, Pr), c.H_ref), sig=sig)
+        E.prove('S-is-S0-at-reference-state', E.eq(S(ref, Tr, Pr), S0), sig=sig)
+        for ph in 'slg':
+            E.prove('dH/dT-is-Cn (integral form)', E.eq(H(ph, T2, P) - H(ph, T, P), E.uf('F_' + ph, T2) - E.uf('F_' + ph, T)), sig=f'{sig}/{ph}')
+            E.prove('dS/dT-is-Cn/T (integral form)', E.eq(S(ph, T2, P) - S(ph, T, P), E.uf('G_' + ph, T2) - E.uf('G_' + ph, T)), sig=f'{sig}/{ph}')
+        E.prove('H-jump-at-Tb-is-Hvap', E.eq(H('g', Tb, P) - H('l', Tb, P), hv), sig=sig)
+        E.prove('H-jump-at-Tm-is-Hfus', E.eq(H('l', Tm, P) - H('s', Tm, P), Hfus), sig=sig)
+        E.prove('S-jump-at-Tb-is-Hvap/Tb (at P_ref)', E.eq(S('g', Tb, Pr) - S('l', Tb, Pr), hv / Tb), sig=sig)
+        E.prove('S-jump-at-Tm-is-Hfus/Tm', E.eq(S('l', Tm, P) - S('s', Tm, P), Hfus / Tm), sig=sig)
+    return run
+
+
 def groups(tier):
     return {
         'pure-component': (g_pure(), dict(qtimeout_ms=20000)),
         'phase-locked': (g_locked(), {}),
         'ideal-mixture': (g_mixture(3), dict(qtimeout_ms=20000)),
+        'constants-through-setters': (g_setter_history(), dict(qtimeout_ms=20000)),
     }
